@@ -9,8 +9,8 @@ import itertools, time, collections, re, copy
 import z3
 import common
 from base import *
-from cast import Func, Block, ExprS, Call, Return, If, While, For, Assign, Inc, Switch, Break, Tern
-from cast import S as _CastS      # (statement base class; not used)
+from cast import *
+from cast import *
 from base import S
 import families, families2
 from families import V, C, A, B, mkprog
@@ -177,6 +177,27 @@ def graph_programs(tier):
     add('g/shared_helper', [vleaf('hlp'), vleaf('only_a'), F('fa', None, [], Block([ExprS(Call('hlp', [])), ExprS(Call('only_a', []))]))], [ExprS(Call('hlp', [])), ExprS(Call('fa', []))])
     add('g/shared_helper_irq', [vleaf('hlp'), vleaf('only_i')], [ExprS(Call('hlp', []))], post='void interrupt irq() { hlp(); only_i(); }\n')
     add('g/diamond_tail', [vleaf('f1'), vleaf('tail'), F('f2', None, [], Block([ExprS(Call('f1', [])), ExprS(Call('tail', []))])), F('f3', None, [], Block([ExprS(Call('f1', []))]))], [ExprS(Call('f3', [])), ExprS(Call('f2', []))])
+    # calls in every value position: the second call of a binary operation (the first result waits in A / cctmp), index, operand of
+    # a unary operator, comparison sides, argument expressions, return expressions; with and without parameters
+    leaf0 = lambda n: F(n, 'u8', [], Block([ret(B('+', V('va'), C(1)))]))
+    for kind, c1, c2 in (('p', lambda: Call('f1', [V('va')]), lambda: Call('f2', [V('vb')])), ('n', lambda: Call('f1', []), lambda: Call('f2', []))):
+        lf = leaf if kind == 'p' else leaf0
+        fs = lambda: [lf('f1'), lf('f2')]
+        for op in ('+', '-', '&', '|', '^'):
+            add('g/val/%s/bin%s' % (kind, op), fs(), [A(V('vd'), B(op, c1(), c2()))], extra=('vc', 'vb', 'vd'))
+            add('g/val/%s/bin16%s' % (kind, op), fs(), [A(V('wa'), B(op, c1(), c2()))], extra=('vc', 'vb', 'wa'))
+            add('g/val/%s/var%s' % (kind, op), fs(), [A(V('vd'), B(op, V('vc'), c2()))], extra=('vc', 'vb', 'vd'))
+        for op in ('<', '==', '>='):
+            add('g/val/%s/cmp%s' % (kind, op), fs(), [If(B(op, c1(), c2()), inc('vc'))], extra=('vc', 'vb'))
+        add('g/val/%s/index' % kind, fs(), [A(V('vd'), Index('arr', c2()))], extra=('vc', 'vb', 'vd'))
+        add('g/val/%s/index-store' % kind, fs(), [A(Index('arr', B('&', c1(), C(3))), c2())], extra=('vc', 'vb'))
+        add('g/val/%s/neg' % kind, fs(), [A(V('vd'), Un('-', c2()))], extra=('vc', 'vb', 'vd'))
+        add('g/val/%s/shift' % kind, fs(), [A(V('vd'), B('<<', c2(), C(1)))], extra=('vc', 'vb', 'vd'))
+        add('g/val/%s/arg-sum' % kind, fs() + [leaf('f3')], [A(V('vd'), Call('f3', [B('+', c1(), c2())]))], extra=('vc', 'vb', 'vd'))
+        add('g/val/%s/ret-sum' % kind, fs() + [F('f3', 'u8', [], Block([ret(B('+', c1(), c2()))]))], [A(V('vd'), Call('f3', []))], extra=('vc', 'vb', 'vd'))
+        add('g/val/%s/cass' % kind, fs(), [A(V('vd'), c2(), '+=')], extra=('vc', 'vb', 'vd'))
+        add('g/val/%s/tern-cond' % kind, fs(), [A(V('vd'), Tern(B('<', c1(), C(3)), c2(), C(0)))], extra=('vc', 'vb', 'vd'))
+        add('g/val/%s/X' % kind, fs(), [A(V('X'), c2()), A(V('vd'), B('+', V('X'), c1()))], extra=('vc', 'vb', 'vd'))
     return P
 
 
